@@ -18,7 +18,7 @@ From Coq Require Import Reals ZArith List.
 From Coquelicot Require Import Coquelicot.
 From PV Require Import Num NumR Model_pathlines Proofs_velocity Proofs_pathlines.
 From PV Require Import Model_pathline_session Proofs_pathline_session.
-From PV Require Import Inst_velocity Inst_pathlines Proofs_pathline_gen.
+From PV Require Import Inst_velocity Inst_pathlines Proofs_pathline_gen Proofs_pathline_exact.
 From PV.gen Require Import Gen_velocity Gen_velocity_utils Gen_pathlines.
 Import ListNotations.
 Open Scope R_scope.
@@ -444,3 +444,37 @@ Theorem C18_generated_corner_grad_is_jacobian : forall (hl vl : Z) (U t : R) (x 
        is_derive (fun s => corner_field i j U (upd x m s) k) (x m) (G (3 * k + m)%nat)) /\
     G 0%nat + G 4%nat + G 8%nat = 0.
 Proof. exact gen_corner_grad_is_jacobian. Qed.
+
+(* --- exact solutions of the problem get_pathline poses ------------------------------------- *)
+(* x solves dx/dt = _ivp_func(x) on [a, 0] (any velocity callable, any box, any dimension) and ends
+   inside the closed box: then it is inside the box at EVERY time.  (_ivp_func is exactly 0 outside:
+   a point outside cannot move, so it would still be outside at t = 0.)  The "stays inside the domain
+   box" clause for the exact solution; LSODA's deviation from it is measured. *)
+Theorem C18_exact_pathline_stays_in_box :
+  forall (gv : list R -> res (list R)) (mn mx : list R) (x : R -> list R) (a : R),
+  length mn = length mx ->
+  (forall t, a <= t <= 0 -> length (x t) = length mn /\
+     exists v, @ivp_func NumR gv mn mx (x t) = Ok v /\
+       forall k, (k < length mn)%nat -> is_derive (fun s => nth k (x s) 0) t (nth k v 0)) ->
+  in_box (x 0) mn mx ->
+  forall t, a <= t <= 0 -> in_box (x t) mn mx.
+Proof. exact exact_pathline_stays_in_box. Qed.
+
+(* the same with the right-hand side GENERATED from the source (dimension 3) *)
+Theorem C18_generated_exact_pathline_stays_in_box :
+  forall (gv : list R -> res (list R)) (gg : arr R -> res (arr R)) (mn mx : list R) (x : R -> list R) (a : R),
+  length mn = 3%nat -> length mx = 3%nat ->
+  (forall t, a <= t <= 0 -> length (x t) = 3%nat /\
+     exists v, @k_ivp_func_n3 NumR t (A (x t)) (lift_v 3 gv) gg (A mn) (A mx) = Ok v /\
+       forall k, (k < 3)%nat -> is_derive (fun s => nth k (x s) 0) t (v k)) ->
+  in_box (x 0) mn mx ->
+  forall t, a <= t <= 0 -> in_box (x t) mn mx.
+Proof. exact gen_exact_pathline_stays_in_box. Qed.
+
+Example C18_exact_nonvacuous :
+  let gv := fun _ : list R => Ok [0; 0; 0] in let x := fun _ : R => [0; 0; 0] in
+  let mn := [-1; -1; -1] in let mx := [1; 1; 1] in
+  forall t : R, -1 <= t <= 0 -> length (x t) = length mn /\
+     exists v, @ivp_func NumR gv mn mx (x t) = Ok v /\
+       forall k, (k < length mn)%nat -> is_derive (fun s => nth k (x s) 0) t (nth k v 0).
+Proof. exact exact_hypotheses_satisfiable. Qed.
